@@ -1,0 +1,37 @@
+//! Schedule points for controlled-concurrency verification.
+//!
+//! Compiled only with the `verif-hooks` cargo feature (off by default). A schedule point is a
+//! call placed between two consecutive accesses to shared state at a place where no map guard
+//! or lock is held. It does nothing unless a callback has been installed; an external
+//! controller installs one that parks the calling thread until the controller releases it, so
+//! that a chosen interleaving of cache operations can be replayed deterministically.
+
+use std::sync::{Arc, RwLock};
+
+/// Callback invoked at every schedule point with the name of the site.
+pub type SchedCallback = Arc<dyn Fn(&'static str) + Send + Sync>;
+
+static CALLBACK: RwLock<Option<SchedCallback>> = RwLock::new(None);
+
+/// Install (`Some`) or remove (`None`) the global schedule-point callback.
+pub fn install(cb: Option<SchedCallback>) {
+    let mut slot = match CALLBACK.write() {
+        Ok(guard) => guard,
+        Err(poisoned) => poisoned.into_inner(),
+    };
+    *slot = cb;
+}
+
+/// Announce that the calling thread has reached the schedule point `site`.
+///
+/// No-op when no callback is installed. The callback is cloned out of the registry first, so
+/// the registry lock is not held while the callback runs (it may block for a long time).
+pub fn sched_point(site: &'static str) {
+    let cb = match CALLBACK.read() {
+        Ok(guard) => guard.clone(),
+        Err(poisoned) => poisoned.into_inner().clone(),
+    };
+    if let Some(cb) = cb {
+        cb(site);
+    }
+}
